@@ -319,6 +319,9 @@ func keyOps(hist []*HistOp) (map[string][]porcupine.Operation, string) {
 
 // checkLinearizable runs porcupine per key (outside the bubble: porcupine uses
 // real timers and its own goroutines). Unknown (timeout) is never reported.
+// linTimeout bounds one porcupine search; Unknown verdicts are counted, never reported.
+var linTimeout = 20 * time.Second
+
 func checkLinearizable(hist []*HistOp) (illegalKey string, detail string, unknown int, badOp string) {
 	per, bad := keyOps(hist)
 	if bad != "" {
@@ -331,7 +334,7 @@ func checkLinearizable(hist []*HistOp) (illegalKey string, detail string, unknow
 	sort.Strings(keys)
 	for _, k := range keys {
 		ops := per[k]
-		switch porcupine.CheckOperationsTimeout(kvModel, ops, 20*time.Second) {
+		switch porcupine.CheckOperationsTimeout(kvModel, ops, linTimeout) {
 		case porcupine.Illegal:
 			var lines []string
 			sort.Slice(ops, func(i, j int) bool { return ops[i].Call < ops[j].Call })
